@@ -259,14 +259,23 @@ def empty_guard(ctx, facts, prefix):
     n = 0
     for lp in loops:
         n += 1
-        fs = nf.early_facts(t, lp)
-        ok = [f for f in fs if f[0] == "truth" and f[2] is True and f[1] in POPULATED_TESTS]
+        R = resolver_of(fn)
+        fs = nf.early_facts(t, lp, res=R)
+
+        def populated(f):
+            """the fact says: some bin is populated — any(|b| b) holds, or all(|b| !b) does not (closure parameter named freely)"""
+            if f[0] != "truth":
+                return False
+            if f[2] is True and (f[1] in POPULATED_TESTS or re.match(r"^self\.init\.iter\(\)\.any\(\|&?(\w+)\| \(?\1( == true)?\)?\)$", f[1])):
+                return True
+            return f[2] is False and bool(re.match(r"^self\.init\.iter\(\)\.all\(\|&?(\w+)\| \(?(!\1|\1 == false)\)?\)$", f[1]))
+        ok = [f for f in fs if populated(f)]
         # the failing branch must return Err
         good = False
         if ok:
             body = fn["hir"]
             for st in body["stmts"]:
-                if st["k"] == "If" and "e" not in st and nf.atoms(st["c"], False) == [ok[0]]:
+                if st["k"] == "If" and "e" not in st and nf.atoms(st["c"], False, res=R) == [ok[0]]:
                     tb = st["t"]
                     last = tb.get("expr") or (tb["stmts"][-1] if tb["stmts"] else None)
                     if last is not None and last["k"] == "Ret" and "e" in last and "Err" in hirq.show(last["e"])[:40]:
